@@ -24,9 +24,27 @@ var hostFuncs = map[string]interface{}{
 	"go/types.TypeString":      types.TypeString,
 	"go/types.Implements":      types.Implements,
 	"go/types.AssignableTo":    types.AssignableTo,
+	"go/types.ConvertibleTo":   types.ConvertibleTo,
+	"go/types.IdenticalIgnoreTags": types.IdenticalIgnoreTags,
+	"go/types.IsInterface":     types.IsInterface,
+	"go/types.Comparable":      types.Comparable,
+	"go/types.Satisfies":       types.Satisfies,
+	"go/types.Default":         types.Default,
+	"go/types.MissingMethod":   types.MissingMethod,
+	"go/types.LookupFieldOrMethod": types.LookupFieldOrMethod,
+	"go/types.NewSlice":        types.NewSlice,
+	"go/types.NewArray":        types.NewArray,
+	"go/types.NewMap":          types.NewMap,
+	"go/types.NewChan":         types.NewChan,
+	"go/types.ObjectString":    types.ObjectString,
+	"go/types.SelectionString": types.SelectionString,
+	"go/types.CoreType":        coreTypeCompat,
 	"go/token.NewFileSet":      token.NewFileSet,
 	"github.com/cloudflare/ahocorasick.NewStringMatcher": ahocorasick.NewStringMatcher,
 }
+
+// coreTypeCompat: the core type of t (its underlying type unless t is a type parameter with a single core type)
+func coreTypeCompat(t types.Type) types.Type { return t.Underlying() }
 
 func hostIsNil(h *HostV) bool {
 	if h == nil || !h.rv.IsValid() {
